@@ -243,11 +243,11 @@ pub fn run(s: &Session) {
     s.assume("ed25519-dalek 2.x (sign, hazmat raw_sign, verify) implements RFC 8032");
     s.assume("'bits set as required' = low three bits of byte 0 clear, bit 6 of byte 31 set, bit 7 of byte 31 clear");
 
-    s.forall("standard-keys", s.pick(20_000, 400_000), || case(false), check);
-    s.forall("extended-keys", s.pick(20_000, 400_000), || case(true), check);
+    s.forall("standard-keys", s.pick(20_000, 600_000), || case(false), check);
+    s.forall("extended-keys", s.pick(20_000, 600_000), || case(true), check);
     s.forall(
         "extended-key-clamping",
-        s.pick(40_000, 800_000),
+        s.pick(60_000, 1_000_000),
         || prop::collection::vec(any::<u8>(), 64..=64).prop_map(|bytes| ClampCase { bytes }),
         check_clamp,
     );
